@@ -634,14 +634,24 @@ theorem math_gcd_lcm_on_integers (a b : Nat) (x y : ℤ) (ha : IntVal a x) (hb :
   ⟨janetGcd_int a b x y ha hb, fun hx hne hl => janetLcm_int a b x y ha hb hx hne hl, fun c d => janetGcd_special c d⟩
 
 open JanetModel.Int64.Ieee in
-/-- ★ `math/floor`, `math/ceil`, `math/trunc`, `math/abs` of a finite double: finite doubles with the mathematical value
-    ⌊x⌋, ⌈x⌉, x rounded toward zero, |x| (nothing is rounded: these are exact functions of a binary64) -/
+/-- ★ `math/floor`, `math/ceil`, `math/trunc`, `math/round`, `math/abs` of a finite double: finite doubles with the mathematical
+    value ⌊x⌋, ⌈x⌉, x rounded toward zero, x rounded to nearest with halfway cases away from zero (`roundHalfAway`), |x|
+    (nothing is rounded: these are exact functions of a binary64) -/
 theorem math_integer_valued_functions (a : Nat) (ha : FinBits a) :
     (FinBits (Ieee.floor a) ∧ valQ (Ieee.floor a) = ((⌊valQ a⌋ : ℤ) : ℚ)) ∧
     (FinBits (Ieee.ceil a) ∧ valQ (Ieee.ceil a) = ((⌈valQ a⌉ : ℤ) : ℚ)) ∧
     (FinBits (Ieee.trunc a) ∧ valQ (Ieee.trunc a) = ((truncQ (valQ a) : ℤ) : ℚ)) ∧
+    (FinBits (Ieee.round a) ∧ valQ (Ieee.round a) = ((roundHalfAway (valQ a) : ℤ) : ℚ)) ∧
     (a < 18446744073709551616 → FinBits (fabs a) ∧ valQ (fabs a) = |valQ a|) :=
-  ⟨floor_exact a ha, ceil_exact a ha, trunc_exact a ha, fun h => fabs_exact a ha h⟩
+  ⟨floor_exact a ha, ceil_exact a ha, trunc_exact a ha, round_exact a ha, fun h => fabs_exact a ha h⟩
+
+open JanetModel.Int64.Ieee in
+/-- non-vacuity / the halfway convention: `(math/round 2.5)` = 3, `(math/round -2.5)` = -3, `(math/round 0.49999999999999994)` = 0 (bit for bit) -/
+example : Ieee.round 0x4004000000000000 = 0x4008000000000000 ∧ Ieee.round 0xc004000000000000 = 0xc008000000000000 ∧
+    Ieee.round 0x3fdfffffffffffff = 0 ∧ roundHalfAway (5 / 2) = 3 ∧ roundHalfAway (-5 / 2) = -3 := by
+  refine ⟨by decide +kernel, by decide +kernel, by decide +kernel, ?_, ?_⟩
+  · unfold roundHalfAway; rw [if_pos (by norm_num), Int.floor_eq_iff]; norm_num
+  · unfold roundHalfAway; rw [if_neg (by norm_num), neg_eq_iff_eq_neg, Int.floor_eq_iff]; norm_num
 
 open JanetModel.Int64.Ieee in
 /-- the cfuns: one (two) number argument(s), anything else is `janet_getnumber`'s "bad slot" / the arity error -/
